@@ -19,8 +19,8 @@ func TestVerifC04(t *testing.T) {
 	}
 	st := &vwStats{}
 	note := "N=3 voters, Q=2, one channel; authorities (epoch, term, fence) allocated by next-term, fence, unfence and next-epoch installs plus synthetic older authorities; initial state: node 1 installed under (1,1,1); a path ends (silently, counted) at a transition that matches the known C01 defect KF-C01-1"
-	res := vwRun(r, "replication-world/C04/deep", o, st, ev.Pick(r, 4, 5), ev.Pick(r, 1, 2), note)
-	res2 := vwRun(r, "replication-world/C04/faulty", o, st, ev.Pick(r, 3, 6), ev.Pick(r, 2, 1), note)
+	res := vwRun(r, "replication-world/C04/deep", o, st, ev.Pick(r, 4, 5), ev.Pick(r, 1, 1), note)
+	res2 := vwRun(r, "replication-world/C04/faulty", o, st, ev.Pick(r, 3, 4), ev.Pick(r, 2, 2), note)
 	res.States += res2.States
 	vwAssumptions(r)
 	vwCounters(r, st)
